@@ -37,7 +37,7 @@ def run(ctx):
     # values reached through histories (assignments, in-place changes of containers and sub-messages, parses, copies; bytes()
     # called in between): after every call the bytes must spec-decode to the value the object then has
     from .. import hist
-    hist.run_histories(ctx, ["TRep", "TMapV", "TMapK", "TMix", "TOne", "TOpt", "TImpl", "Node"], 400 if quick else 12000, 9, "inplace")
+    hist.run_histories(ctx, ["TScal", "TScal", "TRep", "TMapV", "TMapK", "TMix", "TOne", "TOpt", "TImpl", "Node"], 400 if quick else 12000, 9, "inplace")
     ctx.notes["cases_by_type"] = {t: sum(1 for c in cs if c["ty"] == t) for t in msgev.world()["schema"]["types"]}
 
 
